@@ -23,6 +23,9 @@ func runC10(c *mon.Ctx) {
 		}
 		c10Exec(c, r.Fork(3), i%8 == 1)
 		c10TestScope(c, r.Fork(4))
+		if i%40 == 7 {
+			c10LongTimer(c, r.Fork(44))
+		}
 		if i%4 == 2 {
 			c10Concurrent(c, r.Fork(5))
 		}
@@ -608,3 +611,35 @@ func c10Concurrent(c *mon.Ctx, r *mon.Rand) {
 type c10TypedErr struct{}
 
 func (*c10TypedErr) Error() string { return "typed nil" }
+
+// c10LongTimer: a long record history on a single timer of a reporter-less
+// scope: every Record is one delivery, none is dropped however many there are.
+func c10LongTimer(c *mon.Ctx, r *mon.Rand) {
+	ts := vNewTest("p", nil, uint(r.Range(0, 2)))
+	n := r.Range(16000, 40000)
+	tm := ts.SubScope("s").Timer("long")
+	for i := 0; i < n; i++ {
+		tm.Record(time.Duration(i + 1))
+		if i%9000 == 8999 {
+			ts.Snapshot()
+		}
+	}
+	c.Eval(1)
+	c.Event("testscope-records", int64(n))
+	got := snapTimers(ts, "p.s.long", map[string]string{})
+	if len(got) != 1 {
+		c.Violation("testscope-timer-entry", map[string]interface{}{"why": fmt.Sprintf("%d snapshot entries for the timer", len(got)), "records": n})
+		return
+	}
+	if len(got[0]) != n {
+		c.Violation("timer-not-exactly-once", map[string]interface{}{"why": fmt.Sprintf("%d Records on one timer of a test scope, the snapshot holds %d values", n, len(got[0]))})
+		return
+	}
+	for i, d := range got[0] {
+		if d != time.Duration(i+1) {
+			c.Violation("testscope-timer-values", map[string]interface{}{"why": fmt.Sprintf("value %d of %d is %d, recorded %d", i, n, d, i+1)})
+			break
+		}
+	}
+	c.Distinct(mon.Hash64("long", fmt.Sprint(n)))
+}
